@@ -247,6 +247,7 @@ def selftest(only=None):
     base = tempfile.mkdtemp(prefix='verif-selftest-', dir=os.environ.get('TMPDIR', '/var/tmp'))
     missed = []
     ran = 0
+    summary = {}
     try:
         for meta_path in sorted(glob.glob(os.path.join(VERIF, 'seeded', '*', 'meta.json'))):
             meta = json.load(open(meta_path))
@@ -275,13 +276,27 @@ def selftest(only=None):
             ran += 1
             vio = [l for l in r.stdout.splitlines() if l.startswith('VIOLATION')]
             named = [l for l in vio if 'obligation=' in l]
-            print('SELFTEST %s: exit=%d, %d violation line(s), %d by a named obligation' % (meta['seed'], r.returncode, len(vio), len(named)))
+            print('SELFTEST %s: exit=%d, %d violation line(s), %d by a named obligation' % (meta['seed'], r.returncode, len(vio), len(named)), flush=True)
             if r.returncode != 1:
                 missed.append(meta['seed'])
+            import re as _re
+            summary[meta['seed']] = {
+                'property': pid, 'exit': r.returncode, 'violation_lines': len(vio),
+                'obligations': sorted({m.group(1) for l in named for m in [_re.search(r'obligation=(\S+)', l)] if m})[:6],
+                'bounded_classes': sorted({m.group(1) for l in vio for m in [_re.search(r'class=(\S+)', l)] if m})[:4],
+                'no_failing_input_found_only': bool(vio) and all(l.rstrip().endswith('no-failing-input-found') for l in vio),
+                'head': subprocess.run(['git', '-C', REPO, 'rev-parse', '--short', 'HEAD'], capture_output=True, text=True).stdout.strip()}
             shutil.rmtree(d)
     finally:
         shutil.rmtree(base, ignore_errors=True)
     print('SELFTEST: %d seeded changes run, %d not detected: %s' % (ran, len(missed), missed))
+    out = os.path.join(VERIF, 'seeded', 'SELFTEST.json')
+    prev = {}
+    if only and os.path.exists(out):
+        prev = json.load(open(out))
+    prev.update(summary)
+    with open(out, 'w') as f:
+        json.dump(prev, f, indent=1, sort_keys=True)
     return 0 if not missed else 2
 
 
